@@ -306,6 +306,21 @@ func (k Keeper) ComputeConsumerNextValSet(
 	if !powerShapingParameters.AllowInactiveVals {
 		candidateValidators = activeValidators
 	}
+	if powerShapingParameters.Top_N > 0 {
+		// the validators required by the Top N rule were opted in above (those are active validators);
+		// any other validator, e.g., an inactive one whose power ties with `minPower`, has to opt in itself
+		optedInValidators := []stakingtypes.Validator{}
+		for _, val := range candidateValidators {
+			consAddr, err := val.GetConsAddr()
+			if err != nil {
+				continue
+			}
+			if k.IsOptedIn(ctx, consumerId, types.NewProviderConsAddress(consAddr)) {
+				optedInValidators = append(optedInValidators, val)
+			}
+		}
+		candidateValidators = optedInValidators
+	}
 	nextValidators, err := k.ComputeNextValidators(ctx, consumerId, candidateValidators, powerShapingParameters, minPower)
 	if err != nil {
 		return []abci.ValidatorUpdate{},
